@@ -13,7 +13,7 @@ from __future__ import annotations
 
 import ast
 
-from pv.corpus.templates import BY_NAME, TEMPLATES
+from pv.corpus.templates import BY_NAME, TEMPLATES, generated
 from pv.props.c01 import _fn_holder, _observe
 
 PROPERTY = "C06"
@@ -250,7 +250,7 @@ def cases(tier, seed):
     th = tier == "thorough"
     L = 4 if th else 3
     cs = []
-    for t in TEMPLATES:
+    for t in TEMPLATES + generated(seed, 40 if th else 8):
         if t["name"] in _SKIP:
             continue
         cs.append({"id": f"{t['name']}:stream", "params": {"template": t["name"], "mode": "stream", "L": L},
